@@ -45,14 +45,16 @@ def bit_equal(a, b):
     return a.shape == b.shape and a.dtype == b.dtype and bool(np.array_equal(a, b, equal_nan=True))
 
 
-def ulp_close(a, b, ulps=8):
+def ulp_close(a, b, ulps=8, floor=1.0):
+    """Equal up to `ulps` units in the last place of max(|a|, |b|, floor).  The floor covers cancellation: a draw
+    loc + scale * z close to 0 is rounded at the scale of its O(1) terms, and XLA contracts the multiply-add under jit."""
     a, b = np.asarray(a), np.asarray(b)
     if a.shape != b.shape or a.dtype != b.dtype:
         return False
     if a.dtype.kind != "f":
         return bool(np.array_equal(a, b))
     eps = np.finfo(a.dtype).eps
-    return bool(np.all(np.abs(a.astype(np.float64) - b.astype(np.float64)) <= ulps * eps * np.maximum(np.abs(a), np.abs(b)).astype(np.float64) + 1e-30))
+    return bool(np.all(np.abs(a.astype(np.float64) - b.astype(np.float64)) <= ulps * eps * np.maximum(np.maximum(np.abs(a), np.abs(b)).astype(np.float64), floor)))
 
 
 def flat(ch):
